@@ -101,8 +101,19 @@ func runGenesis(c *kernel.Choices, p kernel.Params) *kernel.Result {
 		tx := std.Tx{Msgs: []std.Msg{msg}, Fee: fee}
 		tx.Signatures = make([]std.Signature, len(tx.GetSigners()))
 		twm := gnoland.TxWithMetadata{Tx: tx}
-		if c.Intn(3) == 0 {
+		// per-tx metadata (hardfork replay): absent, or a drawn subset of its optional fields, so that
+		// consecutive txs differ in WHICH fields they carry (a decoder that reuses a value across txs shows)
+		switch c.Intn(6) {
+		case 0, 1, 2:
+		case 3:
 			twm.Metadata = &gnoland.GnoTxMetadata{Timestamp: genesisTime.Add(-time.Duration(c.Intn(1000)) * time.Hour).Unix()}
+		case 4: // failed on the source chain: skipped at replay
+			twm.Metadata = &gnoland.GnoTxMetadata{Timestamp: genesisTime.Add(-time.Duration(c.Intn(1000)) * time.Hour).Unix(), Failed: true,
+				GasUsed: int64(1000 + c.Intn(100000)), Source: gnoland.SourceHistorical}
+		default: // historical tx: original height (the ante then verifies its — absent — signatures: fails the same way everywhere)
+			twm.Metadata = &gnoland.GnoTxMetadata{Timestamp: int64(c.Intn(2)) * genesisTime.Add(-time.Duration(c.Intn(1000)) * time.Hour).Unix(),
+				BlockHeight: int64(c.Intn(3)) * int64(1+c.Intn(5000)), GasWanted: int64(c.Intn(2)) * 50_000_000, Note: []string{"", "patched: see issue"}[c.Intn(2)],
+				Source: []string{"", gnoland.SourceMigration, gnoland.SourcePatched}[c.Intn(3)]}
 		}
 		st.Txs = append(st.Txs, twm)
 	}
